@@ -13,11 +13,13 @@ import (
 	"strconv"
 	"strings"
 
+	"github.com/EliCDavis/polyform/math/geometry"
 	"github.com/EliCDavis/polyform/math/quaternion"
 	"github.com/EliCDavis/polyform/math/trs"
 	"github.com/EliCDavis/polyform/modeling"
 	"github.com/EliCDavis/polyform/modeling/extrude"
 	"github.com/EliCDavis/polyform/modeling/marching"
+	"github.com/EliCDavis/polyform/modeling/meshops"
 	"github.com/EliCDavis/polyform/modeling/primitives"
 	"github.com/EliCDavis/polyform/modeling/repeat"
 	"github.com/EliCDavis/polyform/modeling/triangulation"
@@ -321,8 +323,40 @@ func (c *Ctx) seq02(all []string) {
 	}
 }
 
+// corpus: fixed past failures, run first on every seed
+func (c *Ctx) corpusC02() {
+	// (1) SliceByPlane on a quad mesh returned 3 indices under quad topology (fixed in /repo dbd042b: rejected now)
+	pos := []vector3.Float64{vector3.New(0., 1., 0.), vector3.New(1., 1., 0.), vector3.New(1., 1., 1.), vector3.New(0., 1., 1.)}
+	plane := geometry.NewPlaneFromPoints(vector3.New(0., 0., 0.), vector3.New(1., 0., 0.), vector3.New(0., 0., 1.))
+	for _, topo := range []modeling.Topology{modeling.QuadTopology, modeling.LineTopology, modeling.PointTopology} {
+		m := modeling.NewMesh(topo, []int{0, 1, 2, 3}).SetFloat3Attribute(modeling.PositionAttribute, pos)
+		st := guardMesh(func() string {
+			out, err := meshops.SliceByPlaneTransformer{Plane: plane, SliceToKeep: meshops.AbovePlane}.Transform(m)
+			if err != nil {
+				return "rejected"
+			}
+			return shapeStr(out)
+		})
+		c.Emit("c02.corpus.slice_non_triangle", strconv.Itoa(int(topo)), st)
+		st = guardMesh(func() string {
+			a, _ := meshops.SliceByPlaneWithAttribute(m, plane, modeling.PositionAttribute)
+			return shapeStr(a)
+		})
+		c.Emit("c02.corpus.slice_non_triangle", strconv.Itoa(int(topo))+" func", st)
+	}
+	// (2) SplitOnUniqueMaterials with material ranges shorter than the triangle list: the skip loop indexes past the
+	// last range (runtime panic, recovered by the harness and reported as a rejection; the model returns none)
+	tri := modeling.NewTriangleMesh([]int{0, 1, 2, 2, 1, 3, 0, 2, 3}).
+		SetFloat3Attribute(modeling.PositionAttribute, pos).
+		SetMaterials([]modeling.MeshMaterial{{PrimitiveCount: 1, Material: sharedMaterials[0]}, {PrimitiveCount: 1, Material: sharedMaterials[1]}})
+	r := c.applyOp("split", tri)
+	c.Emit("c02.op.split", r.args, r.answer(shapeStr))
+	c.Note("corpus:split-short-ranges:" + r.status)
+}
+
 func runC02(c *Ctx) {
 	log.SetOutput(io.Discard)
+	c.corpusC02()
 	maxP := 8
 	if c.Tier == "thorough" {
 		maxP = 24
